@@ -1625,7 +1625,7 @@ def check_c03(tier, replay):
         for s in h:
             ops[s["op"][0]] = ops.get(s["op"][0], 0) + 1
     for a in ("CreateSecret", "UpdateSecret", "MoveSecret", "CreateFile", "UpdateFile", "AttachFile",
-              "CreateFolder", "RenameFolder", "SetDescription", "Sync", "Export"):
+              "CreateFolder", "RenameFolder", "SetDescription", "ImportCopy", "Sync", "Export"):
         if not ops.get(a):
             raise ToolError("no generated behaviour contains %s" % a)
     vlib.cargo_build()
